@@ -5,12 +5,14 @@ from fractions import Fraction
 from .. import translate as T
 from .. import pyloops as PL
 from .. import pyverts as PV
+from ..gen import c14solids as SOL
 
 PID = "C14"
 TITLE = "Procedural generators give valid meshes of the promised shape, all parameters"
 LEAN_MODULES = ["Mouette.Props.C14", "Mouette.Props.C14NoUnused", "Mouette.Props.C14Oriented", "Mouette.Props.C14Sphere", "Mouette.Props.C14Cylinder", "Mouette.Props.C14Rings", "Mouette.Props.C14Triangle", "Mouette.Props.C14Geom",
                 "Mouette.Props.C14Euler", "Mouette.Props.C14CylinderTopo", "Mouette.Props.C14RingsTopo", "Mouette.Props.C14GridTopo",
-                "Mouette.Props.C14TriangleTopo", "Mouette.Props.C14Connected", "Mouette.Props.C14Verts", "Mouette.Props.C14Derived", "Mouette.Props.C14Bisect"]
+                "Mouette.Props.C14TriangleTopo", "Mouette.Props.C14Connected", "Mouette.Props.C14Verts", "Mouette.Props.C14Derived", "Mouette.Props.C14Bisect",
+                "Mouette.Props.C14Solids", "Mouette.Props.C14NoRepeat"]
 
 # ------------------------------------------------------------------------------------------------
 # translated fragments
@@ -67,6 +69,7 @@ def _sig(ints, bools):
 
 def _translate_parametric(path, fname, var, ints, bools):
     tree, _ = T.load(path)
+    var = LEAN_KEYWORDS.get(SOL.container_of(T.find_def(tree, fname)), SOL.container_of(T.find_def(tree, fname)))
     fn = _rename(T.find_def(tree, fname), LEAN_KEYWORDS)
     ints_l, bools_l = [_rn(i) for i in ints], [_rn(b) for b in bools]
     cxv = PL.Ctx(var, "vertices", ints_l, bools_l, elem="unit")
@@ -129,6 +132,7 @@ def translate():
         def tab(p=path, f=fname, v=var):
             tree, _ = T.load(p)
             fn = T.find_def(tree, f)
+            v = SOL.container_of(fn)
             tabs = _collect_tables(fn, v)
             if len(tabs) != 1: raise T.TranslateError(f"expected one face table in {f}, found {len(tabs)}")
             return (f"def {f}NVerts : Nat := {_nverts_literal(fn, v)}\n"
@@ -138,13 +142,14 @@ def translate():
     def hexa():
         tree, _ = T.load("mouette/procedural/shapes.py")
         fn = T.find_def(tree, "hexahedron")
-        tabs = _collect_tables(fn, "hexa")
+        hv = SOL.container_of(fn)
+        tabs = _collect_tables(fn, hv)
         named = {}
         for pth, t in tabs:
             key = "Tri" if "triangulate" in pth else ("Quad" if "not triangulate" in pth else None)
             if key: named[key] = t
         if set(named) != {"Tri", "Quad"}: raise T.TranslateError(f"hexahedron tables not found: {[p for p, _ in tabs]}")
-        return (f"def hexahedronNVerts : Nat := {_nverts_literal(fn, 'hexa')}\n"
+        return (f"def hexahedronNVerts : Nat := {_nverts_literal(fn, hv)}\n"
                 f"def hexahedronFacesTri : List (List Nat) := {T.lean_nat_table(named['Tri'])}\n"
                 f"def hexahedronFacesQuad : List (List Nat) := {T.lean_nat_table(named['Quad'])}\n\n")
     add("mouette/procedural/shapes.py:hexahedron (two literal face tables)", hexa)
@@ -152,10 +157,11 @@ def translate():
     def quad():
         tree, _ = T.load("mouette/procedural/flat.py")
         fn = T.find_def(tree, "quad")
-        tabs = _collect_tables(fn, "out")
+        qv = SOL.container_of(fn)
+        tabs = _collect_tables(fn, qv)
         named = {("Tri" if "triangulate" in p else "Quad"): t for p, t in tabs}
         if set(named) != {"Tri", "Quad"}: raise T.TranslateError("quad tables not found")
-        return (f"def quadNVerts : Nat := {_nverts_literal(fn, 'out')}\n"
+        return (f"def quadNVerts : Nat := {_nverts_literal(fn, qv)}\n"
                 f"def quadFacesTri : List (List Nat) := {T.lean_nat_table(named['Tri'])}\n"
                 f"def quadFacesQuad : List (List Nat) := {T.lean_nat_table(named['Quad'])}\n\n")
     add("mouette/procedural/flat.py:quad (two literal face tables)", quad)
@@ -209,7 +215,7 @@ def translate():
     for path, fname, var, ints, bools, scs, vecs in VERTEX_SITES:
         def vt(p=path, f=fname, v=var, i=ints, b=bools, sc=scs, ve=vecs):
             tree, _ = T.load(p)
-            txt, ev, ex = PV.translate_generator(T.find_def(tree, f), f, v, i, b, sc, ve, helpers)
+            txt, ev, ex = PV.translate_generator(T.find_def(tree, f), f, SOL.container_of(T.find_def(tree, f)), i, b, sc, ve, helpers)
             _VERT[f] = (ev, ex)
             return txt
         addv(f"{path}:{fname} (vertex loop -> positions over a field with abstract cos/sin)", vt)
@@ -218,6 +224,8 @@ def translate():
     T.write_generated("C14Verts", vbody + "end Mouette.Generated.C14Verts\n",
                       header="import Mathlib.Algebra.Field.Basic\nimport Mathlib.Algebra.Order.Field.Basic\nset_option linter.unusedVariables false\n"
                              "namespace Mouette.Generated.C14Verts\nvariable {K : Type} [Field K] [LinearOrder K]\n\n")
+    # ---- round 4: whole bodies of the generators that are not loop nests (Generated/C14Solids.lean, C14SolidsGeom.lean) ------
+    sites += SOL.translate(T.site)
     return sites
 
 
@@ -234,8 +242,9 @@ def _translate_dual():
                                 args=[ast.Name(id="nF" if node.attr == "id_faces" else "nV", ctx=ast.Load())], keywords=[])
             return self.generic_visit(node)
     body = [R().visit(st) for st in fn.body]
-    nv = PL.emits(list(body), PL.Ctx("out", "vertices", ["nF", "nV"], [], elem="unit"))
-    nf = PL.emits(list(body), PL.Ctx("out", "faces", ["nF", "nV"], [], elem="unit"))
+    dvar = SOL.container_of(fn)          # the RawMeshData local may have any name
+    nv = PL.emits(list(body), PL.Ctx(dvar, "vertices", ["nF", "nV"], [], elem="unit"))
+    nf = PL.emits(list(body), PL.Ctx(dvar, "faces", ["nF", "nV"], [], elem="unit"))
     stree, _ = T.load("mouette/procedural/shapes.py")
 
     def dual_of(name):
@@ -250,7 +259,9 @@ def _translate_dual():
     cube = T.find_def(stree, "axis_aligned_cube")
     defaults = dict(zip([a.arg for a in cube.args.args][-len(cube.args.defaults):], [ast.unparse(d) for d in cube.args.defaults]))
     ret = [st for st in cube.body if isinstance(st, ast.Return)][0].value
-    kw = {k.arg: ast.unparse(k.value) for k in ret.keywords}
+    # keyword or positional: resolved against the signature of hexahedron()
+    _, kwb = SOL.call_binding(cube, "hexahedron", T.find_def(stree, "hexahedron"))
+    kw = {k: ast.unparse(v) for k, v in kwb.items()}
     if getattr(ret.func, "id", None) != "hexahedron" or kw.get("triangulate") != "triangulate" or defaults.get("triangulate") != "False" \
             or "volume" in kw:
         raise T.TranslateError("axis_aligned_cube() is no longer the quad hexahedron by default")
@@ -392,10 +403,11 @@ def _translate_vector_field():
     fn = T.find_def(tree, "vector_field")
     loops = [st for st in fn.body if isinstance(st, ast.For)]
     if len(loops) != 1: raise T.TranslateError("vector_field: one loop expected")
-    cxe = PL.Ctx("pl", "edges", ["n"], [], elem="face")
+    pvar = SOL.container_of(fn)
+    cxe = PL.Ctx(pvar, "edges", ["n"], [], elem="face")
     edges = PL.emits(loops, cxe)
     # vertices are added two at a time by `pl.vertices += [a, b]`
-    nv = sum(len(st.value.elts) for st in loops[0].body if isinstance(st, ast.AugAssign) and ast.unparse(st.target) == "pl.vertices"
+    nv = sum(len(st.value.elts) for st in loops[0].body if isinstance(st, ast.AugAssign) and ast.unparse(st.target) == pvar + ".vertices"
              and isinstance(st.value, ast.List))
     return ("/-- edges added by `vector_field` for n origins (as two-element lists), and vertices added per origin -/\n"
             f"def vectorFieldEdges (n : Nat) : List (List Nat) :=\n  {edges}\ndef vectorFieldVertsPer : Nat := {nv}\n\n")
@@ -515,6 +527,16 @@ def _integer_rep(c):
 def model_request(case):
     g = case["gen"]
     if g == "binding": return "binding"
+    b = lambda x: "1" if x else "0"
+    # round 4: the whole translated bodies (faces, cells, colour writes as terms of the switches); the two wrappers forward their
+    # switches to hexahedron() as proved by `switches_forwarded` / `axis_cube_forwards`
+    if g == "tetrahedron": return f"tetrahedron_full {b(case.get('volume'))}"
+    if g == "hexahedron": return f"hexahedron_full {b(case.get('colored'))} {b(case['bools'][0])} {b(case.get('volume'))}"
+    if g == "hexahedron_4pts": return f"hexahedron_full {b(case.get('colored'))} 0 {b(case.get('volume'))}"
+    if g == "axis_aligned_cube": return f"hexahedron_full {b(case.get('colored'))} {b(case['bools'][0])} 0"
+    if g == "icosphere" and not case.get("defaults"): return f"counts icosphere {case['ints'][0]}"
+    if g == "sphere_fibonacci": return "translated sphere_fibonacci"
+    if g == "cylindrify_edges" and not case.get("no_edges"): return f"counts cylindrify {len(_CYL_PTS) - 1} {case['ints'][0]}"
     if g not in MODELLED: return None
     if case.get("volume"): return None          # volume meshes: faces come from cell completion (C02), not from the table
     if g == "vector_field" and case["ints"][0] == 0: return None
@@ -739,12 +761,101 @@ def impl_observe(case):
         return f"err:{type(e).__name__}"
     if case["gen"] in ("chain_of_vertices", "vector_field"):
         E = [sorted(int(x) for x in e) for e in m.edges]          # an edge is an unordered pair (mesh construction stores min first)
-        return f"{len(m.vertices)} ; " + " ".join([str(len(E))] + [f"{a} {b}" for a, b in E])
+        rep = f"{len(m.vertices)} ; " + " ".join([str(len(E))] + [f"{a} {b}" for a, b in E])
+        if case["gen"] == "vector_field": rep += " ; verts:" + _check_row_points(case, m)
+        return rep
     F = [[int(v) for v in f] for f in m.faces] if hasattr(m, "faces") else []
+    if case["gen"] == "cylindrify_edges": return f"{len(m.vertices)} {len(F)}"
+    if case["gen"] == "icosphere": return f"{len(m.vertices)} {len(F)}"
+    if case["gen"] == "sphere_fibonacci": return "verts:" + _check_row_points(case, m)
     rep = _report(len(m.vertices), F)
+    if case["gen"] in FULL_BODY:
+        if case.get("volume"): rep = f"{len(m.vertices)} ; VOL ; VOL ; VOL"      # faces of a volume mesh come from cell completion (C02)
+        C = [[int(v) for v in c] for c in m.cells] if hasattr(m, "cells") else []
+        W = []
+        if hasattr(m, "faces") and m.faces.has_attribute("color"):
+            col = m.faces.get_attribute("color")
+            W = [[int(k)] + [(int(x) if float(x) == int(x) else repr(float(x))) for x in col[k]] for k in col]
+        fl = lambda L: " ".join([str(len(L))] + [" ".join([str(len(f))] + [str(v) for v in f]) for f in L])
+        rep += f" ; cells {fl(C)} ; colors {fl(W)}"
     if case["gen"] in VERT_GENS and not case.get("volume"):
         rep += " ; verts:" + _check_vertex_expressions(case, m)
+    if case["gen"] in SOLID_CORNERS:
+        rep += " ; verts:" + _check_solid_corners(case, m)
     return rep
+
+
+def _sort_colors(rep):
+    """the `colors n 4 k r g b …` segment with its entries sorted by face id (the attribute is a map: write order is immaterial)"""
+    parts = rep.split(" ; ")
+    for i, seg in enumerate(parts):
+        if seg.startswith("colors "):
+            t = seg.split()[2:]
+            ent = sorted((t[j + 1:j + 5] for j in range(0, len(t), 5)), key=lambda e: int(e[0]))
+            parts[i] = " ".join(["colors", str(len(ent))] + [" ".join(["4"] + e) for e in ent])
+    return " ; ".join(parts)
+
+
+FULL_BODY = {"tetrahedron", "hexahedron", "hexahedron_4pts", "axis_aligned_cube"}
+# generator -> name of the translated corner list (vlib/gen/c14solids.py)
+SOLID_CORNERS = {"tetrahedron": "tetrahedronCorners", "hexahedron": "hexahedronCorners", "hexahedron_4pts": "hexa4ptsCorners",
+                 "axis_aligned_cube": "axisCube", "quad": "quadCorners", "triangle": "triangleCorners", "icosahedron": "icosahedronCorners"}
+
+
+def _check_row_points(case, m):
+    """translation validation of the per-row point formulas of `vector_field` / `sphere_fibonacci`"""
+    import numpy as np
+    if not SOL.TREES: translate()
+    got = [[float(c) for c in p] for p in m.vertices]
+    want = []
+    try:
+        if case["gen"] == "vector_field":
+            if "vectorFieldPts" not in SOL.TREES: return "untranslated"
+            o, v = _vf_arrays(case, np)
+            pad = lambda r: tuple(float(x) for x in r) + (0.,) * (3 - len(r))
+            for a, b in zip(o, v): want += SOL.corner_values("vectorFieldPts", {"length_mult": float(case["length_mult"]), "origin": pad(a), "vector": pad(b)})
+        else:
+            if "fibonacciPoint" not in SOL.TREES: return "untranslated"
+            n = int(case["ints"][0])
+            for i in range(n):
+                want += SOL.corner_values("fibonacciPoint", {"phi": (1 + math.sqrt(5)) / 2, "radius": float(case["geo"]["radius"]), "n_pts": float(n),
+                                                             "i": float(i), "sqrt": math.sqrt})
+    except Exception as e:  # noqa
+        return f"eval-error({type(e).__name__})"
+    if len(got) != len(want): return f"count({len(want)}!={len(got)})"
+    for k, (a, b) in enumerate(zip(want, got)):
+        if any(abs(x - y) > 1e-9 * max(1.0, abs(x)) + 1e-12 for x, y in zip(a, b)): return f"differ@{k}"
+    return "ok"
+
+
+def _check_solid_corners(case, m):
+    """translation validation of vlib/gen/c14solids.py: the translated corner expressions, evaluated with floats on the case's
+    parameters, against the vertices the implementation returned"""
+    if not SOL.TREES: translate()
+    g, geo = case["gen"], case["geo"]
+    name = SOLID_CORNERS[g]
+    if name not in SOL.TREES: return "untranslated"
+    fl = lambda p: tuple(float(x) for x in p)
+    if g == "tetrahedron": vals = dict(zip(("P1", "P2", "P3", "P4"), map(fl, _tet_pts(geo))))
+    elif g == "hexahedron": vals = dict(zip(("P1", "P2", "P3", "P4", "P5", "P6", "P7", "P8"), map(fl, _hex_pts(geo))))
+    elif g == "hexahedron_4pts":
+        q = _hex_pts(geo); vals = {"P1": fl(q[0]), "P2": fl(q[1]), "P3": fl(q[3]), "P4": fl(q[4])}
+    elif g in ("quad", "triangle"): vals = {"P0": fl(geo["P"][0]), "P1": fl(geo["P"][1]), "P2": fl(geo["P"][2])}
+    elif g == "icosahedron":
+        d = bool(case.get("defaults"))
+        vals = {"phi": (1 + math.sqrt(5)) / 2, "radius": 1.0 if d else float(geo["radius"]), "center": (0., 0., 0.) if d else fl(geo["center"])}
+    else: vals = {}
+    scs, vecs, trees = SOL.TREES[name]
+    if g != "axis_aligned_cube" and sorted(vals) != sorted(list(scs) + list(vecs)): return f"parameters({sorted(list(scs) + list(vecs))})"
+    try:
+        want = SOL.corner_values(name, vals)
+    except Exception as e:  # noqa
+        return f"eval-error({type(e).__name__})"
+    got = [[float(c) for c in p] for p in m.vertices]
+    if len(got) != len(want): return f"count({len(want)}!={len(got)})"
+    for k, (a, b) in enumerate(zip(want, got)):
+        if any(abs(x - y) > 1e-9 * max(1.0, abs(x)) + 1e-12 for x, y in zip(a, b)): return f"differ@{k}"
+    return "ok"
 
 
 VERT_GENS = {"unit_grid", "unit_triangle", "torus", "sphere_uv", "cylinder", "ring", "flat_ring"}
@@ -816,9 +927,28 @@ def compare(case, model, impl):
         t = tail.split()
         pairs = [sorted((int(t[i]), int(t[i + 1]))) for i in range(1, len(t) - 1, 2)]
         model = head + " ; " + " ".join([t[0]] + [f"{a} {b}" for a, b in pairs]) if t else model
+        if case["gen"] == "vector_field": model += " ; verts:ok"
         return None if model == impl else f"polyline differs: translated-source model {model[:120]} vs implementation {impl[:120]}"
+    if case["gen"] == "sphere_fibonacci":
+        return None if impl == "verts:ok" else f"vertex positions differ from the translated point formula ({impl})"
+    if case["gen"] == "icosphere":
+        k = int(model)
+        want = f"{10 * 4 ** k + 2} {20 * 4 ** k}"
+        return None if impl == want else f"icosphere counts differ: {k} translated subdivision steps give {want}, implementation {impl}"
+    if case["gen"] == "cylindrify_edges":
+        return None if model == impl else f"tube counts differ: translated count terms {model} vs implementation {impl}"
+    if case["gen"] in FULL_BODY:
+        model, impl = _sort_colors(model), _sort_colors(impl)
+    if case["gen"] in FULL_BODY and case.get("volume"):
+        mp = model.split(" ; ")
+        model = " ; ".join([mp[0], "VOL", "VOL", "VOL"] + mp[4:])
     if case["gen"] in VERT_GENS and not case.get("volume"): model = model + " ; verts:ok"
+    if case["gen"] in SOLID_CORNERS: model = model + " ; verts:ok"
     if model == impl: return None
+    if case["gen"] in FULL_BODY or case["gen"] in SOLID_CORNERS:
+        names = ["vertex count", "face list", "validity flags", "E/border/chi"] + (["cells", "colour writes"] if case["gen"] in FULL_BODY else []) + ["corner positions"]
+        for name, a, b in zip(names, model.split(" ; "), impl.split(" ; ")):
+            if a != b: return f"{name} differ: translated-source model {a[:120]} vs implementation {b[:120]}"
     mp, ip = model.split(" ; "), impl.split(" ; ")
     if len(ip) == 5 and len(mp) == 5 and mp[:4] == ip[:4]:
         return f"vertex positions differ from the translated position expressions ({ip[4]})"
@@ -957,6 +1087,13 @@ def oracle(case):
         if tri_expected is not None and F:
             if any(len(f) != (3 if tri_expected else 4) for f in F): bad("triangulate-switch", "triangulate switch not honoured")
         if case.get("colored") and not m.faces.has_attribute("color"): bad("colored-switch", "colored switch not honoured")
+        if m.faces.has_attribute("color"):
+            # an attribute on faces can only speak about faces of the mesh ("indices in range"), and `colored` is honoured only
+            # if every face has a colour
+            keys = sorted(int(k) for k in m.faces.get_attribute("color"))
+            if any(k < 0 or k >= len(F) for k in keys):
+                bad("color-index-range", "the color attribute holds entries for face ids that do not exist", f"keys {keys} with {len(F)} faces")
+            elif keys != list(range(len(F))): bad("colored-switch", "colored switch not honoured: a face has no color", f"keys {keys}")
         if g == "unit_grid" and Bo[1]:
             if not m.vertices.has_attribute("uv_coords"): bad("uv-switch", "generate_uvs not honoured")
             else:
@@ -976,6 +1113,16 @@ def oracle(case):
         d = np.linalg.norm(pts - c, axis=1)
         phi = (1 + math.sqrt(5)) / 2
         if np.max(np.abs(d - r * math.sqrt(1 + phi * phi))) > tol * max(1, r): bad("on-sphere", "vertices are not equidistant from the centre at the scaled radius")
+    if g == "icosahedron" and nV == 12 and not out:
+        # the named shape: a REGULAR icosahedron — all 30 edges have the same length, faces look away from the centre
+        el = [np.linalg.norm(pts[a] - pts[b]) for f in F for a, b in _sides(f)]
+        if el and max(el) - min(el) > tol * max(1, r): bad("regular", "edges of the icosahedron are not all equal", f"{min(el)}..{max(el)}")
+        cc = np.array([0., 0., 0.]) if case.get("defaults") else c
+        if any(float(np.cross(pts[f[1]] - pts[f[0]], pts[f[2]] - pts[f[0]]) @ (pts[f[0]] - cc)) <= 0 for f in F):
+            bad("regular", "a face of the icosahedron does not look away from the centre")
+    if g == "axis_aligned_cube" and nV == 8:
+        if sorted(map(tuple, np.round(pts, 12).tolist())) != sorted(itertools.product((-0.5, 0.5), repeat=3)):
+            bad("corners", "vertices are not the corners (+-1/2, +-1/2, +-1/2) of the axis aligned unit cube")
     if g == "torus":
         R = geo.get("R", 4 * r)
         d = (np.sqrt(pts[:, 0] ** 2 + pts[:, 1] ** 2) - R) ** 2 + pts[:, 2] ** 2
@@ -1161,7 +1308,48 @@ REQUIRED_THEOREMS = ["tetrahedron_closed_oriented", "icosahedron_closed_oriented
                      "icosphere_projection_on_sphere", "dual_counts", "octahedron_dodecahedron_counts", "triangulated_sphere_face_count",
                      "chain_open", "chain_loop", "vector_field_edges",
                      # the bisection of `ring` (loop body translated with numpy aliasing semantics)
-                     "ring_bisect_step_spec", "ring_bisect_bracket", "bracket_midpoint_error", "ring_bisect_frame"]
+                     "ring_bisect_step_spec", "ring_bisect_bracket", "bracket_midpoint_error", "ring_bisect_frame",
+                     # round 4: whole bodies of the generators that are not loop nests (Props/C14Solids.lean)
+                     "tetrahedron_body", "tetrahedron_faces_bound_the_cell", "tetrahedron_corners", "tetrahedron_outward",
+                     "hexahedron_body", "hexahedron_colors_valid", "hexahedron_colors_by_axis", "axis_cube_forwards",
+                     "axis_cube_is_unit_cube", "axis_cube_outward", "hexahedron_4pts_parallelepiped", "hexahedron_4pts_outward",
+                     "triangle_corners", "quad_parallelogram_corners", "icosahedron_on_sphere", "icosahedron_regular",
+                     "icosahedron_outward", "fibonacci_outward", "icosphere_counts", "transform_bindings", "cylindrify_counts",
+                     "spherify_counts", "dual_modes_as_named", "fibonacci_point_on_sphere", "vector_field_points",
+                     # round 4: no repeated face for every parametric family, all resolutions (Props/C14NoRepeat.lean)
+                     "noRepeatedFace_of", "torus_noRepeatedFace", "unit_grid_noRepeatedFace", "sphere_uv_noRepeatedFace",
+                     "cylinder_noRepeatedFace", "ring_noRepeatedFace", "flat_ring_noRepeatedFace", "unit_triangle_noRepeatedFace"]
+# every function defined in the files C14 is anchored in: what ties it to the Lean side.  "translated": a Generated definition is
+# re-extracted from that body on every run and a REQUIRED theorem (bridge / property) is stated about it; the part after the colon
+# says which parts of the body are covered and what is left to the oracle.
+_S, _F, _R, _P, _D, _T = ("mouette/procedural/shapes.py::", "mouette/procedural/flat.py::", "mouette/procedural/rings.py::",
+                          "mouette/procedural/polylines.py::", "mouette/procedural/dual.py::", "mouette/procedural/transformations.py::")
+SOURCE_MAP = {
+    _S + "tetrahedron": "translated: whole body (faces + cells as terms of `volume`, stored corners) — tetrahedron_body, tetrahedron_outward, tetrahedron_closed_oriented",
+    _S + "hexahedron": "translated: whole body (faces, cells, colour writes as terms of the three switches, stored corners) — hexahedron_body, hexahedron_colors_valid, hexahedron_*_closed_oriented",
+    _S + "axis_aligned_cube": "translated: literal corners, forwarded switches — axis_cube_is_unit_cube, axis_cube_outward, axis_cube_forwards",
+    _S + "hexahedron_4pts": "translated: corner expressions handed to hexahedron(), keyword binding — hexahedron_4pts_parallelepiped, hexahedron_4pts_outward, switches_forwarded",
+    _S + "octahedron": "translated: `dual_mesh(axis_aligned_cube())` — octahedron_dodecahedron_counts; geometry by the oracle",
+    _S + "icosahedron": "translated: face table and the twelve vertex expressions — icosahedron_closed_oriented, icosahedron_on_sphere, icosahedron_regular, icosahedron_outward; the unused `uv` parameter is not looked at",
+    _S + "dodecahedron": "translated: `dual_mesh(icosahedron())` — octahedron_dodecahedron_counts; geometry by the oracle",
+    _S + "cylinder": "translated: face loops and vertex loops — cylinderFaces_eq, cylinder_*_euler, cylinder_ring_point",
+    _S + "torus": "translated: face loops and vertex loops — torusFaces_norm, torus_*_euler, torus_on_torus_all",
+    _S + "sphere_uv": "translated: face loops and vertex loops — sphere_uvFaces_eq, sphere_uv_euler, sphere_uv_on_sphere_all",
+    _S + "icosphere": "translated: loop skeleton (rounds of loop_subdivision + projection), both projection statements, base-mesh binding — icosphere_counts, icosphere_projection_on_sphere; the subdivision itself belongs to C13 (counts recurrence restated), manifoldness of the result by the oracle",
+    _S + "sphere_fibonacci": "translated: point formula of the sampling loop and the orientation branch — fibonacci_point_on_sphere, fibonacci_outward, triangulated_sphere_face_count; the hull (qhull) is external: topology by the oracle",
+    _F + "triangle": "translated: face table and stored corners — triangle_disk, triangle_corners",
+    _F + "quad": "translated: both face tables and stored corners — quad_disk, quad_parallelogram_corners",
+    _F + "unit_grid": "translated: face loops and vertex loops — unit_gridFaces_norm, unit_grid_*_euler, unit_grid_in_unit_square; the uv attribute by the oracle",
+    _F + "unit_triangle": "translated: face loops and vertex loops — unit_triangleFaces_addressed, unit_triangle_disk (nu >= nv; open finding for nu < nv)",
+    _R + "ring": "translated: face loop, rim vertices, the bisection step with numpy aliasing — ring_*_euler, ring_rim_on_unit_circle, ring_bisect_step_spec; the apex defect reached by the float bisection by the oracle",
+    _R + "flat_ring": "translated: face loop and the chained rotations — flat_ring_euler, flat_ring_angle",
+    _P + "chain_of_vertices": "translated: edge list through the pair iterators — chain_open, chain_loop; vertex positions (from_arrays) by the oracle",
+    _P + "vector_field": "translated: edge loop and the two points stored per row — vector_field_edges, vector_field_points; the shape checks / padding by the oracle",
+    _D + "dual_mesh": "translated: loop heads, mode dispatch, what each loop appends — dual_counts, dual_modes_as_named; `vertex_to_faces` belongs to C01, the attribute functions to C07: positions and face rings by the oracle",
+    _T + "spherify_vertices": "translated: argument binding of icosphere(), loop + merge — transform_bindings, spherify_counts; merge belongs to C06",
+    _T + "cylindrify_edges": "translated: argument binding of cylinder(), loop + merge — transform_bindings, cylindrify_counts; mean_edge_length belongs to C07",
+}
+
 TRUSTED = [
     "Lean 4.33.0 kernel; axioms ⊆ {propext, Classical.choice, Quot.sound}",
     "translators vlib/pyloops.py (face/edge loop nests, literal tables) and vlib/pyverts.py (vertex positions as expressions over a "
@@ -1203,7 +1391,15 @@ MANIFEST = {
                    "the sphere, dual counts (octahedron 6/8, dodecahedron 20/12), closed oriented triangulation with chi=2 has 2V−4 faces "
                    "(sphere_fibonacci), chain_of_vertices is a path / a cycle, vector_field edges. hexahedron_4pts forwards its switches by "
                    "name. Oracle-only (parameter box): subdivision/qhull-based generators' topology and geometry, dual positions, ring apex "
-                   "defect, tube/ball radii (partial)."),
+                   "defect, tube/ball radii (partial). "
+                   "Round 4: the generators that are not loop nests are translated as WHOLE BODIES (tetrahedron / hexahedron: faces, cells and "
+                   "colour writes as terms of the switches, bridged to the decided tables; stored corner expressions of triangle, quad, "
+                   "tetrahedron, hexahedron, icosahedron; corners handed on by hexahedron_4pts / axis_aligned_cube; loop skeleton of icosphere; "
+                   "argument bindings of spherify_vertices / cylindrify_edges; mode dispatch of dual_mesh; point formula and orientation branch "
+                   "of sphere_fibonacci; vector_field points). Theorems: faces look OUTWARD (tetrahedron for positively oriented corners, every "
+                   "parallelepiped of hexahedron_4pts with a right-handed basis, the axis aligned cube, the icosahedron, the triangles stored by "
+                   "sphere_fibonacci), the icosahedron is regular given phi^2 = phi + 1 and on the sphere of radius r*sqrt(1+phi^2), colours "
+                   "only on existing faces and by axis, icosphere / spherify / cylindrify counts."),
     "level_note": ("Trusted: Lean kernel + standard axioms; the two ast translators (validated by exact face-list and 1e-9 vertex comparison "
                    "on the box each run); Nat for Python ints on admissible parameters; float rounding not modelled; cos/sin/normalize "
                    "abstract. Open finding: unit_triangle(nu<nv)."),
@@ -1213,7 +1409,45 @@ MANIFEST = {
 
 def search_on_break(rng, broken, mismatches):
     """A proof obligation, a translation site or the correspondence broke: widen the failing-input search far beyond the
-    tier's box — every integer parameter of every parametric generator is swept up to 400 (others kept small)."""
+    tier's box — every integer parameter of every parametric generator is swept up to 400 (others kept small).
+    When everything that broke belongs to the round-4 layer (Props/C14Solids.lean, the sites of vlib/gen/c14solids.py, a mismatch on
+    one of those generators) the search is aimed at those generators instead: all switch combinations, fresh corners / centres /
+    radii, more sizes."""
+    import re
+    solid_gens = set(SOLID_CORNERS) | set(FULL_BODY) | {"icosphere", "sphere_fibonacci", "dual_mesh", "spherify_vertices", "cylindrify_edges",
+                                                        "vector_field", "octahedron", "dodecahedron"}
+    solids_only = bool(broken) or bool(mismatches)
+    solid_sites = {n for n, _ in SOL.sites()}
+    for b_ in broken:
+        if b_["kind"] == "lake-build":
+            fs = set(re.findall(r"Mouette/(?:Props|Lemmas|Generated|Model)/(\w+)\.lean", b_["detail"]))
+            if not fs or not fs <= {"C14Solids", "C14SolidsGeom", "C14SolidsLemmas"}: solids_only = False
+        elif b_["kind"] == "translator":
+            if b_["name"] not in solid_sites: solids_only = False
+        elif b_["kind"] != "missing-theorem": solids_only = False
+    for m_ in mismatches:
+        if not (isinstance(m_[0], dict) and m_[0].get("gen") in solid_gens): solids_only = False
+    if solids_only:
+        B = (False, True)
+        out = []
+        for _ in range(3):
+            out += [{"gen": "tetrahedron", "ints": [], "bools": [], "volume": v} for v in B]
+            out += [{"gen": "hexahedron", "ints": [], "bools": [t], "colored": c, "volume": v} for t in B for c in B for v in B]
+            out += [{"gen": "hexahedron_4pts", "ints": [], "bools": [], "colored": c, "volume": v} for c in B for v in B]
+            out += [{"gen": "axis_aligned_cube", "ints": [], "bools": [t], "colored": c} for t in B for c in B]
+            out += [{"gen": "quad", "ints": [], "bools": [t]} for t in B]
+            out += [{"gen": g, "ints": [], "bools": []} for g in ("triangle", "icosahedron", "octahedron", "dodecahedron")]
+            out += [{"gen": "icosphere", "ints": [n], "bools": []} for n in (0, 1, 2)]
+            out += [{"gen": "vector_field", "ints": [n], "bools": [], "length_mult": lm, "dim": d} for n in (1, 3, 7) for lm in (1.0, 0.5, -3.0) for d in (2, 3)]
+            out += [{"gen": "dual_mesh", "ints": [a, 4], "bools": [], "mode": md} for a in (3, 5) for md in ("barycenter", "circumcenter", "Circumcenter")]
+            out += [{"gen": "cylindrify_edges", "ints": [n], "bools": []} for n in (3, 4, 7, 12)]
+            out += [{"gen": "spherify_vertices", "ints": [n], "bools": []} for n in (0, 1, 2)]
+        out += [{"gen": "sphere_fibonacci", "ints": [n], "bools": [True]} for n in list(range(4, 40)) + [64, 100, 150, 200]]
+        out += [{"gen": "sphere_fibonacci", "ints": [n], "bools": [False]} for n in (1, 2, 3, 50)]
+        for c in out:
+            c["geo"] = _geo(rng)
+            if rng.random() < 0.25: _integer_rep(c)
+        return out
     mins = {"unit_grid": (2, 2), "unit_triangle": (2, 2), "torus": (3, 3), "sphere_uv": (1, 3), "cylinder": (3,),
             "ring": (3, 1), "flat_ring": (3, 1)}
     nb = {"unit_grid": 2, "unit_triangle": 1, "torus": 1, "sphere_uv": 0, "cylinder": 1, "ring": 1, "flat_ring": 0}
